@@ -28,7 +28,8 @@ C = ir.uf('unique0', [XW])          # the constant value
 UNIV = uni.BASE + 'Univariate'
 
 
-def native_replay(cls):
+def native_replay(cls, history=False):
+    """history=True: ONE object is fitted on the three datasets in turn (and queried in between) instead of a fresh one each."""
     def rep(env):
         import numpy as np
         import warnings
@@ -38,10 +39,11 @@ def native_replay(cls):
         Cc = getattr(mod, cls)
         rs = np.random.RandomState(5)
         bad = []
+        shared = Cc() if history else None
         for name, data in (('gamma(2)+1', rs.gamma(2.0, size=300) + 1), ('timestamps', 1.7e9 + 600 * rs.normal(size=300)),
-                           ('constant 3.0', np.full(50, 3.0))):
+                           ('constant 3.0', np.full(50, 3.0)))[::-1 if history else 1]:
             try:
-                m = Cc()
+                m = shared if history else Cc()
                 m.fit(data)
                 q = np.array([0.1, 0.5, 0.9])
                 x = np.sort(rs.choice(data, 5))
@@ -281,7 +283,7 @@ def build_kde(chk):
         chk.add(Ob('C03.GaussianKDE.cdf.formula.%s.%d' % (r.cfg, k), r.pc, ir.eq(got, want), function=fq, free_ufs_ok=True,
                    clause='cdf(x) = sum_j w_j [Phi((x - x_j)/s) - Phi((lower - x_j)/s)] over ONE dataset (the training data, or '
                           'the resample of the requested sample_size): s = sqrt(covariance), lower = min - 5 std of that '
-                          'same dataset', replay=native_replay(cls)))
+                          'same dataset', replay=native_replay(cls, history=(r.cfg == 'refit'))))
         chk.add(Ob('C03.GaussianKDE.pdf.is_kernel_estimate.%d' % k, r.pc,
                    ir.eq(term(out['probability_density']), ir.uf('kde.evaluate', [Q] + key)), function=qual +
                    '.probability_density', free_ufs_ok=True, clause='pdf = gaussian_kde.evaluate'))
